@@ -728,6 +728,13 @@ func main() {
 		procSet(os.Args[2], os.Args[3], os.Args[4], os.Args[5])
 		return
 	}
+	if len(os.Args) > 1 && os.Args[1] == "--free-worker" {
+		var j freeJob
+		must(json.Unmarshal([]byte(os.Args[2]), &j))
+		b, _ := json.Marshal(runFreeWorker(j))
+		fmt.Println("RESULT " + string(b))
+		return
+	}
 	if len(os.Args) > 1 && os.Args[1] == "--worker" {
 		var j job
 		must(json.Unmarshal([]byte(os.Args[2]), &j))
@@ -748,6 +755,11 @@ func main() {
 		var v violation
 		if err := r.LoadReplay(&v); err != nil {
 			r.Infra("replay: %v", err)
+			r.Finish()
+		}
+		if len(v.Trace) == 1 && strings.HasPrefix(v.Trace[0], "free-running") {
+			// a finding of the free-running pass: re-run that pass for the scenario (real schedules, not a recorded one)
+			r.Extra["e5_free_running"] = runFree(r, self, bundleDir, scratch, &v.Scenario)
 			r.Finish()
 		}
 		w := &world{bs: loadBundles(bundleDir), root: filepath.Join(scratch, "replay", "cache"), sc: v.Scenario}
@@ -860,5 +872,7 @@ func main() {
 	if e4.Skipped != "" && !shim {
 		r.Infra("neither E1 nor E4 could run: %s", e4.Skipped)
 	}
+	// E5 (supplementary)
+	r.Extra["e5_free_running"] = runFree(r, self, bundleDir, scratch, nil)
 	r.Finish()
 }
